@@ -183,7 +183,7 @@ fn main() {
             let text = std::fs::read_to_string(&args[2]).expect("read replay file");
             let v: serde_json::Value = serde_json::from_str(&text).expect("parse replay file");
             let scv = if v.get("scenario").is_some() { v["scenario"].clone() } else { v };
-            if scv["profile"] == "C15L" {
+            if scv["profile"] == "C15L" || scv["profile"] == "C15B" {
                 let sc: longjump::LjScenario = serde_json::from_value(scv).expect("C15L scenario");
                 let o = longjump::execute(&sc);
                 println!("{}", json!({"violations": o.violations.iter().map(|(t, d)| json!({"tag": t, "props": ["C15"], "detail": d})).collect::<Vec<_>>(), "digest": format!("{:016x}", o.digest)}));
@@ -230,7 +230,7 @@ fn main() {
                 (it.next().unwrap().parse::<u64>().unwrap(), it.next().unwrap().parse::<u64>().unwrap())
             };
             let want_prop = arg(&args, "--prop").map(|s| s.to_string());
-            if profile == "C15L" {
+            if profile == "C15L" || profile == "C15B" {
                 let mut evaluations = 0u64;
                 let mut pairs = 0u64;
                 let mut long_forms = 0u64;
@@ -242,7 +242,7 @@ fn main() {
                 let mut skipped = 0u64;
                 let mut idx = si;
                 while idx < count {
-                    let sc = longjump::generate(seed, idx);
+                    let sc = if profile == "C15B" { longjump::generate_b(seed, idx) } else { longjump::generate(seed, idx) };
                     let o = longjump::execute(&sc);
                     if o.skipped {
                         skipped += 1;
@@ -270,7 +270,7 @@ fn main() {
                     idx += sn;
                 }
                 let mut pv = BTreeMap::new();
-                pv.insert("aarch64_macos".to_string(), evaluations);
+                pv.insert(if profile == "C15B" { "aarch64_linux".to_string() } else { "aarch64_macos".to_string() }, evaluations);
                 let mut probes = BTreeMap::new();
                 probes.insert("macos_long_form_adrp_add_br", long_forms);
                 probes.insert("pc_target_pairs", pairs);
